@@ -2,6 +2,7 @@
 import MdVerif.Model.Formats
 import MdVerif.Model.TextFmt
 import MdVerif.Model.Xdr
+import MdVerif.Model.TextRecords
 import MdVerif.Model.Dcd
 import MdVerif.Driver.Mic
 namespace MdVerif.Driver.FmtP
@@ -19,6 +20,15 @@ def dec (s : String) : List Char := s.toList.map (fun c => if c = '_' then ' ' e
 def showRats : Option (List Rat) → String
   | some xs => "ok " ++ " ".intercalate (xs.map showRat)
   | none => "none"
+
+def hexNib (c : Char) : Option Nat :=
+  if '0' ≤ c ∧ c ≤ '9' then some (c.toNat - '0'.toNat)
+  else if 'a' ≤ c ∧ c ≤ 'f' then some (c.toNat - 'a'.toNat + 10) else none
+
+def hexBytes : List Char → Option (List Nat)
+  | [] => some []
+  | a :: b :: r => do let x ← hexNib a; let y ← hexNib b; let rest ← hexBytes r; pure ((x * 16 + y) :: rest)
+  | _ => none
 
 def allFit (w p : Nat) (xs : List Rat) : Bool := xs.all (fun x => decide (Fits w p x))
 
@@ -43,6 +53,21 @@ def handleTxt : List String → String
     match parseRat a, parseRat b, parseRat c with
     | some a, some b, some c => "F1 " ++ enc (mdcrdBoxLine a b c)
     | _, _, _ => "bad-op"
+  -- txt pdbline <serial> <name> <symbol> <resName> <chain> <resSeq> <x> <y> <z> <bfactor> <segId>   (strings hex-encoded; "-" = empty): the ATOM record
+  | ["txt", "pdbline", serial, name, sym, resn, chain, resseq, x, y, z, b, seg] =>
+    let hs := fun (h : String) => if h == "-" then some [] else (hexBytes h.toList).map (fun bs => bs.map Char.ofNat)
+    match serial.toNat?, hs name, hs sym, hs resn, hs chain, resseq.toInt?, parseRat x, parseRat y, parseRat z, parseRat b, hs seg with
+    | some sr, some nm, some sy, some rn, some ch, some rs, some x, some y, some z, some b, some sg =>
+      match pdbAtomLine ⟨sr, nm, rn, ch.headD ' ', rs, x, y, z, b, sg, sy⟩ with
+      | some l => "L " ++ enc l
+      | none => "ERR"
+    | _, _, _, _, _, _, _, _, _, _, _ => "bad-op"
+  -- txt groline <p> <resSeq> <resName> <atomName> <serial> <x> <y> <z>
+  | ["txt", "groline", ps, resseq, resn, name, serial, x, y, z] =>
+    let hs := fun (h : String) => if h == "-" then some [] else (hexBytes h.toList).map (fun bs => bs.map Char.ofNat)
+    match ps.toNat?, resseq.toInt?, hs resn, hs name, serial.toNat?, parseRat x, parseRat y, parseRat z with
+    | some p, some rs, some rn, some nm, some sr, some x, some y, some z => "L " ++ enc (groAtomLine p rs rn nm sr x y z)
+    | _, _, _, _, _, _, _, _ => "bad-op"
   -- txt pdb83 <values…>: `_format_83` of each value, back to back (ERR if one of them raises)
   | "txt" :: "pdb83" :: rest =>
     match rest.mapM parseRat with
@@ -57,15 +82,6 @@ def handleTxt : List String → String
   | ["txtparse", "tokens", line] => showRats (parseTokens (dec line))
   | ["txtparse", "mdcrd", block] => showRats (mdcrdParse ((block.splitOn "|").map dec))
   | _ => "bad-op"
-
-def hexNib (c : Char) : Option Nat :=
-  if '0' ≤ c ∧ c ≤ '9' then some (c.toNat - '0'.toNat)
-  else if 'a' ≤ c ∧ c ≤ 'f' then some (c.toNat - 'a'.toNat + 10) else none
-
-def hexBytes : List Char → Option (List Nat)
-  | [] => some []
-  | a :: b :: r => do let x ← hexNib a; let y ← hexNib b; let rest ← hexBytes r; pure ((x * 16 + y) :: rest)
-  | _ => none
 
 def showF32 (w : Nat) : String := match MdVerif.Xdr.f32ToRat w with | some q => showRat q | none => "nonfinite"
 
